@@ -801,7 +801,9 @@ class PhaseField(_Simu):
 
         # end cases ----------------------------------------------------
 
-        return self.Results_Reshape_values(values, nodeValues)
+        # flat nodal vectors (Nn * dof_n,) cannot be told from element values when Nn * dof_n == Ne
+        storedOnNodes = True if result in ["displacement"] else None
+        return self.Results_Reshape_values(values, nodeValues, storedOnNodes)
 
     def __indexResult(self, result: str) -> int:
         if len(result) <= 2:
